@@ -90,11 +90,36 @@ class RaiseAnalysis(object):
             return fold(subst_names(view.expand(e, st), env))
         conds = Conds(f.node, ex)
         out = []
-        for st in conds.order:
-            if isinstance(st, ast.Raise):
-                exc = st.exc
-                name = U(exc.func) if isinstance(exc, ast.Call) else (U(exc) if exc is not None else 're-raise')
-                out.append((conds.of(st), '%s raises %s at %s' % (f.qual, name, f.loc(st))))
+        loop_free = not any(isinstance(x, (ast.For, ast.While, ast.Try)) for x in ast.walk(f.node))
+        if loop_free:
+            # path-sensitive: a guard held in a local that is assigned differently per branch is substituted per path
+            from ..paths import enumerate_paths, symexec
+            from ..guards import to_formula
+            cfg = view.cfg
+            rn = [n.id for n in cfg.nodes if n.kind == 'raise']
+            ends = set(rn) | {cfg.exit.id} | set(n.id for n in cfg.nodes if n.kind == 'return')
+            try:
+                plist = enumerate_paths(cfg, cfg.entry.id, set(rn), stop=ends, limit=4000) if rn else []
+            except AnalysisError:
+                plist = None
+            if plist is not None:
+                for p in plist:
+                    ps = symexec(p)
+                    st = p[-1].node.ast
+                    cond = f_and(*[to_formula(fold(subst_names(e, env)), pol) for e, pol, _ in ps.conds])
+                    if cond == FALSE:
+                        continue
+                    exc = st.exc
+                    name = U(exc.func) if isinstance(exc, ast.Call) else (U(exc) if exc is not None else 're-raise')
+                    out.append((cond, '%s raises %s at %s' % (f.qual, name, f.loc(st))))
+            else:
+                loop_free = False
+        if not loop_free:
+            for st in conds.order:
+                if isinstance(st, ast.Raise):
+                    exc = st.exc
+                    name = U(exc.func) if isinstance(exc, ast.Call) else (U(exc) if exc is not None else 're-raise')
+                    out.append((conds.of(st), '%s raises %s at %s' % (f.qual, name, f.loc(st))))
         for call in self.repo.calls_in(f):
             rs = self.repo.resolve_call_all(f, call)
             if not rs:
